@@ -155,3 +155,6 @@ def run(ck, replay):
     if not replay:
         restore_lookup(ck)
         api_lookup(ck)
+        # open finding `ended-link-served-once`: handler-level probe owned by props/c04.py (gm driver)
+        from props import c04
+        c04.gm_known_c17(ck)
